@@ -34,6 +34,10 @@ def run_variant(var: dict) -> tuple[dict, bool, str]:
             if n != 1:
                 return var, False, f"edit does not apply exactly once ({n}x) in {edit['file']}: {edit['old'][:60]!r}"
             path.write_text(text.replace(edit["old"], edit["new"]), encoding="utf-8")
+        if "sed" in var:  # replace-all edit
+            f, old, new = var["sed"]
+            path = scratch / f
+            path.write_text(path.read_text(encoding="utf-8").replace(old, new), encoding="utf-8")
         # the variant must still be valid Python
         for edit in var["edits"]:
             if edit["file"].endswith(".py"):
